@@ -12,8 +12,9 @@ import (
 
 type nasty struct {
 	name, src, op, vars string
-	big                 bool // tens of kilobytes: run against fewer schemas
-	hang                bool // known to run into the watchdog on the current tree (D-09d): run once per entry point
+	big                 bool     // tens of kilobytes: run against fewer schemas
+	hang                bool     // ran into the watchdog before repair D-09d: run once per entry point (each failure costs the whole interval)
+	only                []string // restrict to these entry points (nil = all)
 }
 
 func repeat(n int, f func(i int) string) string {
@@ -28,11 +29,21 @@ func deepList(n int) string { return strings.Repeat("[", n) + "1" + strings.Repe
 
 // nasties: hand-written documents aimed at the guards the property's anchors name.
 func nasties(thorough bool) []nasty {
-	// quick tier: sizes whose (quadratic, see D-09e) validation cost fits the budget; thorough: the full 10k
-	deep, wide := 150, 1000
+	// ValidateDocument is quadratic in nesting depth and in the number of conflicting field pairs, printer.Print is
+	// worse than quadratic in depth (performance remarks in notes/agents/C09.md; polynomial is acceptable by the
+	// lead's ruling on D-09e). Documents that go through them are therefore sized so that this polynomial cost fits
+	// the tier's budget; the 10k-deep documents go to the entry points that take an UNVALIDATED AST.
+	deep, wide, conflicting := 150, 1000, 60
 	if thorough {
-		deep, wide = 10000, 10000
+		deep, wide, conflicting = 400, 10000, 400
 	}
+	huge := 10000
+	hugeLit := 3000 // nesting of literals / types / variable values handed to the unvalidated entry points (quick)
+	hugeVar := 400  // getVariableValues builds nested error messages: quadratic in the depth of an invalid value
+	if thorough {
+		hugeLit, hugeVar = 10000, 1000
+	}
+	unvalidated := []string{"PlanQuery", "Execute", "ExecuteSubscription"}
 	out := []nasty{
 		// --- fragment cycles, length 1-4, directly and through fields (D-09a family)
 		{name: "cycle1-direct", src: `{ ...F } fragment F on Query { ...F }`},
@@ -45,6 +56,7 @@ func nasties(thorough bool) []nasty {
 		{name: "cycle-inline-only", src: `{ ... { ... on Query { ...F } } } fragment F on Query { ... { ...F a { ...F } } }`},
 		{name: "cycle-dynamic", src: `query($a: Boolean!) { ...F @include(if: $a) } fragment F on Query { a @skip(if: $a) { ...G } } fragment G on T { a { ...G ...F } }`, vars: `{"a": true}`},
 		{name: "cycle-subscription", src: `subscription { a { ...F } } fragment F on T { a { ...F } }`},
+		{name: "cycle-subscription-root", src: `subscription { ...F } fragment F on S { a { id } ...G } fragment G on S { ...F }`},
 		{name: "cycle-mutation", src: `mutation { a { ...F } foo } fragment F on T { a { ...F } }`},
 		{name: "cycle-dup-names", src: `{ ...F } fragment F on Query { a { ...F } } fragment F on Query { b ...F }`},
 		{name: "cycle-two-ops", src: `query A { ...F } query B { a { ...F } } fragment F on Query { a { ...G } } fragment G on T { a { ...G } }`, op: "B"},
@@ -101,10 +113,16 @@ func nasties(thorough bool) []nasty {
 		nasty{name: "deep-object-literal", big: true, src: "{ b(x1: " + strings.Repeat("{a:", deep) + "null" + strings.Repeat("}", deep) + ") }"},
 		nasty{name: "deep-list-type", big: true, src: "query($a: " + strings.Repeat("[", deep) + "Int" + strings.Repeat("]", deep) + ") { b(a: $a) }"},
 		nasty{name: "deep-variable-value", big: true, src: `query($c: input, $f: [[Int]]) { b(x1: $c) enum(a: $f) }`, vars: `{"c": ` + strings.Repeat(`{"a":`, deep/5) + `null` + strings.Repeat(`}`, deep/5) + `, "f": ` + deepList(deep/5) + `}`},
-		nasty{name: "unbalanced-deep", big: true, src: strings.Repeat("{a(b:[", deep)},
+		nasty{name: "unbalanced-deep", big: true, src: strings.Repeat("{a(b:[", huge)},
+		nasty{name: "10k-deep-fields", big: true, only: unvalidated, src: strings.Repeat("{a", huge) + strings.Repeat("}", huge)},
+		nasty{name: "10k-deep-inline", big: true, only: unvalidated, src: "{" + strings.Repeat("...{", huge) + "b" + strings.Repeat("}", huge) + "}"},
+		nasty{name: "10k-deep-list-literal", big: true, only: unvalidated, src: "{ b(b: " + deepList(hugeLit) + ") }"},
+		nasty{name: "10k-deep-object-literal", big: true, only: unvalidated, src: "{ b(x1: " + strings.Repeat("{a:", hugeLit) + "null" + strings.Repeat("}", hugeLit) + ") a { id } }"},
+		nasty{name: "10k-deep-list-type", big: true, only: unvalidated, src: "query($a: " + strings.Repeat("[", hugeLit) + "Int" + strings.Repeat("]", hugeLit) + ") { b(a: $a) }", vars: `{"a": 1}`},
+		nasty{name: "deep-variable-value-unvalidated", big: true, only: unvalidated, src: `query($c: input, $f: [[Int]]) { b(x1: $c) enum(a: $f) }`, vars: `{"c": ` + strings.Repeat(`{"a":`, hugeVar) + `null` + strings.Repeat(`}`, hugeVar) + `, "f": ` + deepList(hugeLit) + `}`},
 		nasty{name: "wide-distinct", big: true, src: "{ " + repeat(wide, func(i int) string { return fmt.Sprintf("k%d: b ", i) }) + "}"},
 		nasty{name: "wide-same-key", big: true, src: "{ " + repeat(wide/2, func(i int) string { return "b " }) + "}"},
-		nasty{name: "wide-same-key-conflicting", big: true, src: "{ " + repeat(400, func(i int) string { return fmt.Sprintf("k: b(a: %d) ", i) }) + "}"},
+		nasty{name: "wide-same-key-conflicting", big: true, src: "{ " + repeat(conflicting, func(i int) string { return fmt.Sprintf("k: b(a: %d) ", i) }) + "}"},
 		nasty{name: "wide-spreads", big: true, src: "{ " + repeat(wide/4, func(i int) string { return "...F " }) + "} fragment F on Query { b }"},
 		nasty{name: "wide-fragments", big: true, src: "{ ...F0 } " + repeat(wide/8, func(i int) string { return fmt.Sprintf("fragment F%d on Query { b ...F%d } ", i, i+1) })},
 		nasty{name: "wide-variables", big: true, src: "query(" + repeat(wide/5, func(i int) string { return fmt.Sprintf("$v%d: Int = %d ", i, i) }) + ") { b(a: $v0) }"},
